@@ -45,7 +45,11 @@ func c12Run(c c12Case) (err error) {
 				err = fmt.Errorf("Tokenize(%q, %v) panicked: %v", pw, c.Index, r)
 			}
 		}()
-		p, terr = spg.Tokenize(pw, spg.Indices(append([]byte{}, c.Index...)), c.Entropy)
+		idx := spg.Indices(append([]byte{}, c.Index...)) // empty but non-nil when the index is empty
+		if len(c.Index) == 0 && c.Entropy > 0 {
+			idx = nil
+		}
+		p, terr = spg.Tokenize(pw, idx, c.Entropy)
 	}()
 	if err != nil {
 		return err
@@ -93,7 +97,7 @@ func c12Gen(t *rapid.T) c12Case {
 		n := rapid.IntRange(0, 14).Draw(t, "nchars")
 		s := ""
 		for i := 0; i < n; i++ {
-			s += rapid.SampledFrom([]string{"a", "b", "c", "-", "é", "正", "💩", "\xff", "\xc3", "1"}).Draw(t, "ch")
+			s += rapid.SampledFrom([]string{"a", "b", "c", "-", "é", "正", "💩", "\xff", "\xc3", "1", "\n", "\r", " "}).Draw(t, "ch")
 		}
 		c.Pw = []byte(s)
 	}
